@@ -3,6 +3,8 @@ package main
 import (
 	"fmt"
 	"go/token"
+	"regexp"
+	"sort"
 	"strings"
 
 	"golang.org/x/tools/go/ssa"
@@ -463,6 +465,54 @@ func checkC12(c *Ctx) {
 					"the response's IPv6 address can be applied to the IPv4 registration of a dual-stack client")
 			}
 		})
+		// the response is applied whenever it is present: the only conditions on the way to its fields are tests of
+		// the response itself, the family flag and (for transport parameters) the client's opt-out
+		resp := P(f, 1) + ".GetRegistrationResponse()"
+		var points []ssa.Instruction
+		label := map[ssa.Instruction]string{}
+		eachInstr(f, func(in ssa.Instruction) {
+			switch x := in.(type) {
+			case *ssa.Call:
+				if calleeShort(&x.Call) == "GetDstPort" && strings.HasPrefix(pathOf(x), resp) {
+					points = append(points, in)
+					label[in] = "the response's DstPort"
+				}
+			case *ssa.UnOp:
+				if o, fld, ok := fieldOwner(x.X); ok && x.Op == token.MUL && o == "proto.RegistrationResponse" && (fld == "Ipv4Addr" || fld == "Ipv6Addr") {
+					points = append(points, in)
+					label[in] = "the response's " + fld
+				}
+			case *ssa.Store:
+				if o, fld, ok := fieldOwner(x.Addr); ok && o == "proto.ClientToStation" && fld == "TransportParams" {
+					points = append(points, in)
+					label[in] = "the response's TransportParams"
+				}
+			}
+		})
+		isAllowed := func(cnd string) bool {
+			return strings.Contains(cnd, resp) || cnd == P(f, 2) || strings.Contains(cnd, "core.GenSharedKeys(") || strings.Contains(cnd, "GetDisableRegistrarOverrides()")
+		}
+		for _, pt := range points {
+			var extra []string
+			okk := reachAgainst(f, pt, func(b *ssa.BasicBlock) bool {
+				iff, ok := b.Instrs[len(b.Instrs)-1].(*ssa.If)
+				if !ok {
+					return false
+				}
+				cnd, _ := normCond(iff.Cond)
+				if isAllowed(cnd) {
+					return false
+				}
+				// only conditions that can actually keep the point from being reached matter
+				if hit, _ := reachAt(f, b, isInstr(pt), nil, nil); !hit {
+					return false
+				}
+				extra = append(extra, cnd)
+				return true
+			})
+			r.Check(okk, "C12.5", "station: "+label[pt]+" applied whenever the response carries it", pt.Pos(), fnName(f), "reachable whatever the outcome of every condition other than tests of the response, the family flag and the client's opt-out",
+				"the registration response forwarded by the registrar is applied only if an additional condition goes the right way (candidates: "+firstN(strings.Join(uniq(sortedCopy(extra)), ", "), 140)+"): otherwise the station ignores what the registrar told the client and derives its own phantom / port / parameters")
+		}
 		if n4 == 0 || n6 == 0 {
 			r.Bad("C12.5", fmt.Sprintf("station: response addresses not applied (v4 reads %d, v6 reads %d)", n4, n6), f.Pos(), fnName(f), "the station ignores the phantom address chosen by the registrar: it expects the client on a different phantom")
 		}
@@ -581,6 +631,43 @@ func checkC12(c *Ctx) {
 
 	// ---- C12.7 exclusions first
 	r.Rule("C12.7", "address overrides are preceded by the exclusion loop; an excluded phantom is returned unchanged", 2)
+	// the substituted address is base + uniform offset in [0, size): the draw spans exactly the subnet
+	if f := c.P.Func(repoMod+"/pkg/regserver/regprocessor", "", "getRandUint32IPv4"); f != nil && f.Blocks != nil {
+		n := 0
+		for _, ci := range callsIn(f, shortIs("randomInt")) {
+			n++
+			a := ci.Common().Args
+			lo, hi := pathOf(a[0]), pathOf(a[1])
+			base := "regprocessor.ipv4ToUint32(" + P(f, 0) + ".IP)#0"
+			okk := lo == base
+			if add, isAdd := a[1].(*ssa.BinOp); okk && isAdd && add.Op == token.ADD && add.X == a[0] {
+				sz := pathOf(add.Y)
+				okk = strings.Contains(sz, "(1 << ") && strings.Contains(sz, P(f, 0)+".Mask.Size()#1 - "+P(f, 0)+".Mask.Size()#0")
+			} else {
+				okk = false
+			}
+			r.Check(okk, "C12.7", "getRandUint32IPv4: address drawn from [base, base + 2^(bits-ones))", ci.Pos(), fnName(f), "randomInt(base, base+size)",
+				"the substituted phantom is drawn from ["+firstN(lo, 60)+", "+firstN(hi, 90)+") instead of exactly the override subnet [base, base+size): addresses outside the configured subnet can be chosen (or, for small subnets, the range is empty / wraps around)")
+		}
+		if n == 0 {
+			r.Unk("C12.7", "getRandUint32IPv4: randomInt call", f.Pos(), fnName(f), "not found")
+		}
+	}
+	if f := c.P.Func(repoMod+"/pkg/regserver/regprocessor", "", "randomInt"); f != nil && f.Blocks != nil {
+		eachInstr(f, func(in ssa.Instruction) {
+			ret, ok := in.(*ssa.Return)
+			if !ok || len(ret.Results) != 2 {
+				return
+			}
+			if e, isC := returnedValue(ret, 1, nil).(*ssa.Const); !isC || e.Value != nil {
+				return
+			}
+			vp := pathOf(returnedValue(ret, 0, nil))
+			want := "(" + P(f, 0) + " + uint32(rand.Int(rand.Reader, big.NewInt(int64((" + P(f, 1) + " - " + P(f, 0) + "))))#0.Int64()))"
+			r.Check(vp == want, "C12.7", "randomInt: x + uniform draw below (y - x)", ret.Pos(), fnName(f), "x + rand.Int(y-x)",
+				"randomInt returns "+firstN(vp, 100)+" instead of x + rand.Int(y - x): the draw no longer covers exactly [x, y)")
+		})
+	}
 	if f := c.fn("C12.7", rp, "RegProcessor", "processBdReq"); f != nil {
 		var exclLoad ssa.Instruction
 		var containsIf *ssa.If
@@ -661,4 +748,15 @@ func randomSources(v ssa.Value) map[ssa.Value]bool {
 	}
 	walk(v, 0)
 	return out
+}
+
+var tnumRe = regexp.MustCompile(`\bt\d+\b`)
+
+// stripNums removes SSA register numbers from an instruction's text so that it can serve in a construct key.
+func stripNums(s string) string { return tnumRe.ReplaceAllString(s, "t") }
+
+func sortedCopy(s []string) []string {
+	o := append([]string{}, s...)
+	sort.Strings(o)
+	return o
 }
